@@ -44,7 +44,9 @@ pub fn check<S: Sim>(prop: &str, tier: Tier, args: &[String]) -> i32 {
     let rep = runner::report::<S>(prop, seed, &res);
     // vacuity: required probes must have fired
     let mut vacuous = Vec::new();
-    if limit.is_none() {
+    // (the AddressSanitizer pass forces the system allocator: probes of the allocator seam cannot fire there)
+    let forced_system = std::env::var("LMSIM_FORCE_ALLOC").map(|v| v == "system").unwrap_or(false);
+    if limit.is_none() && !forced_system {
         for p in S::required_probes(prop, tier) {
             if res.totals.probes.get(p).copied().unwrap_or(0) == 0 {
                 vacuous.push(p);
